@@ -21,7 +21,9 @@ RULE = ('BFS over (class, tuple of element tags) with every operation of the alp
         'object from every reachable state, in lock-step with a Python list; every index -7..7 and every '
         'slice start,stop in {None,-7..7} x step in {None,+-1,+-2,+-3} observed in every state; a case is '
         'non-trivial when the state or the operand is not the bare default object; distinct = distinct '
-        '(class, state, operation, argument) tuples')
+        '(class, state, operation, argument) tuples; plus cross-class histories from a pristine interpreter (mc/crossproc.py: 1088 histories of two or three '
+        'Alloc / Empty / default-constructor calls over the 8 classes) and alias histories on one persistent object (every sequence of 3 of 21 operations from '
+        '3 start states, the object and everything handed out compared with a list of immutable tags)')
 ASSUME = ['the whole mutable state of a list-capable object is its .data attribute (read off smuserlist.py); '
           'states with equal .data therefore have equal futures',
           'element values are compared bit-for-bit with the arrays that were put in']
